@@ -127,4 +127,11 @@ func oracleVersions(probe []byte) Oracle {
 	}}
 }
 
+// oracleVersionsLive: the version bookkeeping of the live instance only (no fresh / scratch instances).
+func oracleVersionsLive(probe []byte) Oracle {
+	return Oracle{Name: "versions", Fn: func(w *World) *Violation {
+		return checkVersionsOn("live", w.Tree, w.M, probe)
+	}}
+}
+
 var _ = fmt.Sprintf
